@@ -16,6 +16,10 @@ package core
 //@   invariant [arrived<=count] g.arrived <= g.count
 //@   waitcond g.arrived == g.count || g.canceled
 
+// panic-freedom: a gate always has its condition variable and that has its lock (set once by NewGate)
+//@ typeinv gateImpl g
+//@   inv g.gateCondition != nil && ref(g.gateCondition.L) != 0
+
 //@ func (*gateImpl).Register
 //@   modifies g.count
 //@   ensures [add] g.count == old(g.count) + count
@@ -196,7 +200,7 @@ package core
 //@   invariant [state-is-one-of-ten] rtValid(s)
 
 //@ spec rtValid(s *Runtime) bool = s.currentState == s.RuntimeStartedState || s.currentState == s.RuntimeInitErrorState || s.currentState == s.RuntimeReadyState || s.currentState == s.RuntimeRunningState || s.currentState == s.RuntimeRestoreReadyState || s.currentState == s.RuntimeRestoringState || s.currentState == s.RuntimeInvocationResponseState || s.currentState == s.RuntimeInvocationErrorResponseState || s.currentState == s.RuntimeResponseSentState || s.currentState == s.RuntimeRestoreErrorState
-//@ spec rtWired(s *Runtime) bool = typeis(s.ManagedThread, *ManagedThread) && ref(s.ManagedThread) != 0 && typeis(s.RuntimeStartedState, *RuntimeStartedState) && s.RuntimeStartedState.(*RuntimeStartedState).runtime == s && typeis(s.RuntimeInitErrorState, *RuntimeInitErrorState) && s.RuntimeInitErrorState.(*RuntimeInitErrorState).runtime == s && typeis(s.RuntimeReadyState, *RuntimeReadyState) && s.RuntimeReadyState.(*RuntimeReadyState).runtime == s && typeis(s.RuntimeRunningState, *RuntimeRunningState) && s.RuntimeRunningState.(*RuntimeRunningState).runtime == s && typeis(s.RuntimeRestoreReadyState, *RuntimeRestoreReadyState) && typeis(s.RuntimeRestoringState, *RuntimeRestoringState) && s.RuntimeRestoringState.(*RuntimeRestoringState).runtime == s && typeis(s.RuntimeInvocationResponseState, *RuntimeInvocationResponseState) && s.RuntimeInvocationResponseState.(*RuntimeInvocationResponseState).runtime == s && typeis(s.RuntimeInvocationErrorResponseState, *RuntimeInvocationErrorResponseState) && s.RuntimeInvocationErrorResponseState.(*RuntimeInvocationErrorResponseState).runtime == s && typeis(s.RuntimeResponseSentState, *RuntimeResponseSentState) && s.RuntimeResponseSentState.(*RuntimeResponseSentState).runtime == s && typeis(s.RuntimeRestoreErrorState, *RuntimeRestoreErrorState) && s.RuntimeRestoreErrorState.(*RuntimeRestoreErrorState).runtime == s
+//@ spec rtWired(s *Runtime) bool = typeis(s.ManagedThread, *ManagedThread) && ref(s.ManagedThread) != 0 && typeis(s.RuntimeStartedState, *RuntimeStartedState) && ref(s.RuntimeStartedState) != 0 && s.RuntimeStartedState.(*RuntimeStartedState).runtime == s && typeis(s.RuntimeInitErrorState, *RuntimeInitErrorState) && ref(s.RuntimeInitErrorState) != 0 && s.RuntimeInitErrorState.(*RuntimeInitErrorState).runtime == s && typeis(s.RuntimeReadyState, *RuntimeReadyState) && ref(s.RuntimeReadyState) != 0 && s.RuntimeReadyState.(*RuntimeReadyState).runtime == s && typeis(s.RuntimeRunningState, *RuntimeRunningState) && ref(s.RuntimeRunningState) != 0 && s.RuntimeRunningState.(*RuntimeRunningState).runtime == s && typeis(s.RuntimeRestoreReadyState, *RuntimeRestoreReadyState) && ref(s.RuntimeRestoreReadyState) != 0 && typeis(s.RuntimeRestoringState, *RuntimeRestoringState) && ref(s.RuntimeRestoringState) != 0 && s.RuntimeRestoringState.(*RuntimeRestoringState).runtime == s && typeis(s.RuntimeInvocationResponseState, *RuntimeInvocationResponseState) && ref(s.RuntimeInvocationResponseState) != 0 && s.RuntimeInvocationResponseState.(*RuntimeInvocationResponseState).runtime == s && typeis(s.RuntimeInvocationErrorResponseState, *RuntimeInvocationErrorResponseState) && ref(s.RuntimeInvocationErrorResponseState) != 0 && s.RuntimeInvocationErrorResponseState.(*RuntimeInvocationErrorResponseState).runtime == s && typeis(s.RuntimeResponseSentState, *RuntimeResponseSentState) && ref(s.RuntimeResponseSentState) != 0 && s.RuntimeResponseSentState.(*RuntimeResponseSentState).runtime == s && typeis(s.RuntimeRestoreErrorState, *RuntimeRestoreErrorState) && ref(s.RuntimeRestoreErrorState) != 0 && s.RuntimeRestoreErrorState.(*RuntimeRestoreErrorState).runtime == s
 //@ spec rtFlows(s *Runtime) bool = isInitFlow(s.RuntimeStartedState.(*RuntimeStartedState).initFlow) && s.RuntimeRestoringState.(*RuntimeRestoringState).initFlow == s.RuntimeStartedState.(*RuntimeStartedState).initFlow && isInvokeFlow(s.RuntimeRunningState.(*RuntimeRunningState).invokeFlow) && s.RuntimeInvocationResponseState.(*RuntimeInvocationResponseState).invokeFlow == s.RuntimeRunningState.(*RuntimeRunningState).invokeFlow && s.RuntimeInvocationErrorResponseState.(*RuntimeInvocationErrorResponseState).invokeFlow == s.RuntimeRunningState.(*RuntimeRunningState).invokeFlow && s.RuntimeResponseSentState.(*RuntimeResponseSentState).invokeFlow == s.RuntimeRunningState.(*RuntimeRunningState).invokeFlow
 //@ spec isInitFlow(f InitFlowSynchronization) bool = typeis(f, *initFlowSynchronizationImpl) && ref(f) != 0 && initFlowWired(f.(*initFlowSynchronizationImpl))
 //@ spec isInvokeFlow(f InvokeFlowSynchronization) bool = typeis(f, *invokeFlowSynchronizationImpl) && ref(f) != 0 && invokeFlowWired(f.(*invokeFlowSynchronizationImpl))
@@ -441,7 +445,7 @@ package core
 //@   invariant [state-is-one-of-nine] extValid(s)
 
 //@ spec extValid(s *ExternalAgent) bool = (s.currentState == s.StartedState || s.currentState == s.RegisteredState || s.currentState == s.ReadyState || s.currentState == s.RunningState || s.currentState == s.InitErrorState || s.currentState == s.ExitErrorState || s.currentState == s.ShutdownFailedState || s.currentState == s.ExitedState || s.currentState == s.LaunchErrorState) && s.events != nil
-//@ spec extWired(s *ExternalAgent) bool = typeis(s.ManagedThread, *ManagedThread) && ref(s.ManagedThread) != 0 && typeis(s.StartedState, *ExternalAgentStartedState) && s.StartedState.(*ExternalAgentStartedState).agent == s && typeis(s.RegisteredState, *ExternalAgentRegisteredState) && s.RegisteredState.(*ExternalAgentRegisteredState).agent == s && typeis(s.ReadyState, *ExternalAgentReadyState) && s.ReadyState.(*ExternalAgentReadyState).agent == s && typeis(s.RunningState, *ExternalAgentRunningState) && s.RunningState.(*ExternalAgentRunningState).agent == s && typeis(s.InitErrorState, *ExternalAgentInitErrorState) && typeis(s.ExitErrorState, *ExternalAgentExitErrorState) && typeis(s.ShutdownFailedState, *ExternalAgentShutdownFailedState) && typeis(s.ExitedState, *ExternalAgentExitedState) && typeis(s.LaunchErrorState, *ExternalAgentLaunchErrorState)
+//@ spec extWired(s *ExternalAgent) bool = typeis(s.ManagedThread, *ManagedThread) && ref(s.ManagedThread) != 0 && typeis(s.StartedState, *ExternalAgentStartedState) && ref(s.StartedState) != 0 && s.StartedState.(*ExternalAgentStartedState).agent == s && typeis(s.RegisteredState, *ExternalAgentRegisteredState) && ref(s.RegisteredState) != 0 && s.RegisteredState.(*ExternalAgentRegisteredState).agent == s && typeis(s.ReadyState, *ExternalAgentReadyState) && ref(s.ReadyState) != 0 && s.ReadyState.(*ExternalAgentReadyState).agent == s && typeis(s.RunningState, *ExternalAgentRunningState) && ref(s.RunningState) != 0 && s.RunningState.(*ExternalAgentRunningState).agent == s && typeis(s.InitErrorState, *ExternalAgentInitErrorState) && ref(s.InitErrorState) != 0 && typeis(s.ExitErrorState, *ExternalAgentExitErrorState) && ref(s.ExitErrorState) != 0 && typeis(s.ShutdownFailedState, *ExternalAgentShutdownFailedState) && ref(s.ShutdownFailedState) != 0 && typeis(s.ExitedState, *ExternalAgentExitedState) && ref(s.ExitedState) != 0 && typeis(s.LaunchErrorState, *ExternalAgentLaunchErrorState) && ref(s.LaunchErrorState) != 0
 //@ spec extFlows(s *ExternalAgent) bool = isInitFlow(s.StartedState.(*ExternalAgentStartedState).initFlow) && s.RegisteredState.(*ExternalAgentRegisteredState).initFlow == s.StartedState.(*ExternalAgentStartedState).initFlow && isInvokeFlow(s.RunningState.(*ExternalAgentRunningState).invokeFlow) && flowsDisjoint(s.StartedState.(*ExternalAgentStartedState).initFlow.(*initFlowSynchronizationImpl), s.RunningState.(*ExternalAgentRunningState).invokeFlow.(*invokeFlowSynchronizationImpl))
 //@ spec flowsDisjoint(i *initFlowSynchronizationImpl, v *invokeFlowSynchronizationImpl) bool = ref(i.agentReadyGate) != ref(v.agentReadyGate) && ref(i.agentReadyGate) != ref(v.runtimeReadyGate) && ref(i.agentReadyGate) != ref(v.runtimeResponseGate) && ref(i.externalAgentsRegisteredGate) != ref(v.agentReadyGate) && ref(i.externalAgentsRegisteredGate) != ref(v.runtimeReadyGate) && ref(i.externalAgentsRegisteredGate) != ref(v.runtimeResponseGate) && ref(i.runtimeReadyGate) != ref(v.agentReadyGate) && ref(i.runtimeReadyGate) != ref(v.runtimeReadyGate) && ref(i.runtimeReadyGate) != ref(v.runtimeResponseGate) && ref(i.runtimeRestoreReadyGate) != ref(v.agentReadyGate) && ref(i.runtimeRestoreReadyGate) != ref(v.runtimeReadyGate) && ref(i.runtimeRestoreReadyGate) != ref(v.runtimeResponseGate)
 //@ spec extInitFlow(s *ExternalAgent) *initFlowSynchronizationImpl = s.StartedState.(*ExternalAgentStartedState).initFlow.(*initFlowSynchronizationImpl)
@@ -597,7 +601,7 @@ package core
 //@   invariant [state-is-one-of-six] intValid(s)
 
 //@ spec intValid(s *InternalAgent) bool = (s.currentState == s.StartedState || s.currentState == s.RegisteredState || s.currentState == s.ReadyState || s.currentState == s.RunningState || s.currentState == s.InitErrorState || s.currentState == s.ExitErrorState) && s.events != nil
-//@ spec intWired(s *InternalAgent) bool = typeis(s.ManagedThread, *ManagedThread) && ref(s.ManagedThread) != 0 && typeis(s.StartedState, *InternalAgentStartedState) && s.StartedState.(*InternalAgentStartedState).agent == s && typeis(s.RegisteredState, *InternalAgentRegisteredState) && s.RegisteredState.(*InternalAgentRegisteredState).agent == s && typeis(s.ReadyState, *InternalAgentReadyState) && s.ReadyState.(*InternalAgentReadyState).agent == s && typeis(s.RunningState, *InternalAgentRunningState) && s.RunningState.(*InternalAgentRunningState).agent == s && typeis(s.InitErrorState, *InternalAgentInitErrorState) && typeis(s.ExitErrorState, *InternalAgentExitErrorState)
+//@ spec intWired(s *InternalAgent) bool = typeis(s.ManagedThread, *ManagedThread) && ref(s.ManagedThread) != 0 && typeis(s.StartedState, *InternalAgentStartedState) && ref(s.StartedState) != 0 && s.StartedState.(*InternalAgentStartedState).agent == s && typeis(s.RegisteredState, *InternalAgentRegisteredState) && ref(s.RegisteredState) != 0 && s.RegisteredState.(*InternalAgentRegisteredState).agent == s && typeis(s.ReadyState, *InternalAgentReadyState) && ref(s.ReadyState) != 0 && s.ReadyState.(*InternalAgentReadyState).agent == s && typeis(s.RunningState, *InternalAgentRunningState) && ref(s.RunningState) != 0 && s.RunningState.(*InternalAgentRunningState).agent == s && typeis(s.InitErrorState, *InternalAgentInitErrorState) && ref(s.InitErrorState) != 0 && typeis(s.ExitErrorState, *InternalAgentExitErrorState) && ref(s.ExitErrorState) != 0
 //@ spec intFlows(s *InternalAgent) bool = isInitFlow(s.RegisteredState.(*InternalAgentRegisteredState).initFlow) && isInvokeFlow(s.RunningState.(*InternalAgentRunningState).invokeFlow) && flowsDisjoint(s.RegisteredState.(*InternalAgentRegisteredState).initFlow.(*initFlowSynchronizationImpl), s.RunningState.(*InternalAgentRunningState).invokeFlow.(*invokeFlowSynchronizationImpl))
 //@ spec intInitFlow(s *InternalAgent) *initFlowSynchronizationImpl = s.RegisteredState.(*InternalAgentRegisteredState).initFlow.(*initFlowSynchronizationImpl)
 //@ spec intInvokeFlow(s *InternalAgent) *invokeFlowSynchronizationImpl = s.RunningState.(*InternalAgentRunningState).invokeFlow.(*invokeFlowSynchronizationImpl)
@@ -799,11 +803,31 @@ package core
 //@   modifies nothing
 //@   ensures [empty] r0.byName != nil && r0.byID != nil && fresh(r0.byName) && fresh(r0.byID) && r0.byName != r0.byID && (forall k string :: !has(r0.byName, k) && !has(r0.byID, k)) && len(r0.byName) == 0
 
-// the number of agents is the number of names in both maps (counted through Visit callbacks: trusted, not verified)
+// Iteration through a callback: Visit calls cb exactly once per stored agent (proved on Visit's own loop); callers
+// reason with an invariant over the set of visited keys, as for a range loop.
+//@ func (*ExternalAgentsMap).Visit
+//@   foreach cb over m.byName
+//@   modifies nothing
+//@   loop range m.byName: invariant forall k string :: has(old(m.byName), k) == old(has(m.byName, k)) && (visited[k] ==> old(has(m.byName, k))) && timescalled(k) == ite(visited[k], 1, 0)
+//@ func (*InternalAgentsMap).Visit
+//@   foreach cb over m.byName
+//@   modifies nothing
+//@   loop range m.byName: invariant forall k string :: has(old(m.byName), k) == old(has(m.byName, k)) && (visited[k] ==> old(has(m.byName, k))) && timescalled(k) == ite(visited[k], 1, 0)
+
+// the number of agents is the number of names in both maps
+//@ func (*registrationServiceImpl).countAgentsUnsafe$1
+//@   requires res < 9223372036854775807
+//@   modifies res
+//@   ensures res == old(res) + 1
+//@ func (*registrationServiceImpl).countAgentsUnsafe$2
+//@   requires res < 9223372036854775807
+//@   modifies res
+//@   ensures res == old(res) + 1
 //@ func (*registrationServiceImpl).countAgentsUnsafe
-//@   trusted the count is accumulated by callbacks passed to Visit; higher-order iteration is outside the verified subset
 //@   modifies nothing
 //@   ensures r0 == len(s.externalAgents.byName) + len(s.internalAgents.byName)
+//@   loop visit s.externalAgents: invariant res == card(visited)
+//@   loop visit s.internalAgents: invariant res == len(s.externalAgents.byName) + card(visited)
 
 //@ func (*registrationServiceImpl).CreateExternalAgent
 //@   modifies mapof(s.externalAgents.byName), mapof(s.externalAgents.byID)
